@@ -192,7 +192,7 @@ def reader_half(c):
                 (consts(ninit=3, shards=6, runners=(1, 2, 3), rec=2, page=2, starts=3, ckpts=3, maxlen=80, log=True, **CODE), 70),
                 (consts(ninit=1, shards=3, runners=(1, 2), rec=4, page=2, starts=5, ckpts=5, maxlen=60, log=True, **CODE), 100)]
     else:
-        gens = [(consts(ninit=n, shards=sh, runners=rs, rec=rec, page=pg, starts=st, ckpts=st, maxlen=ml, log=True, **CODE), 500)
+        gens = [(consts(ninit=n, shards=sh, runners=rs, rec=rec, page=pg, starts=st, ckpts=st, maxlen=ml, log=True, **CODE), 250)
                 for n, sh, rs, rec, pg, st, ml in ((1, 3, (1, 2), 4, 3, 4, 60), (1, 5, (1, 2, 3), 3, 2, 4, 80), (2, 5, (1, 2), 3, 2, 3, 70),
                                                    (2, 7, (1, 2, 3), 2, 2, 4, 100), (3, 6, (2, 3), 3, 3, 3, 90), (2, 6, (1,), 4, 2, 5, 100))]
     first, steps = None, {}
